@@ -22,19 +22,16 @@ Definition C08_full_statement : Prop :=
 (* proved, at the level of the expander's state machine, for every stream, label list and count: *)
 
 (* what is sent for the body is the body written out count times, the counter replaced by 1, 2, ..., count
-   (nothing at all when the count is zero), block labels renamed uniformly, every other token kept *)
+   (nothing at all when the count is zero), every other token - block labels included - kept *)
 Theorem C08_body_count_times_partial :
   forall n i cl ll body,
     repeat_body n i cl ll body = flat_map (fun j => map (subst_body cl ll j) body) (nseq i n) /\
     repeat_body 0 i cl ll body = [] /\
     (forall t, t_typ t = tokText -> t_val t = cl -> subst_body cl ll i t = mkT tokNumber (dec_of_N i)) /\
-    (forall t, t_typ t = tokText -> text_eqb (t_val t) cl = false -> mem_text (t_val t) ll = true ->
-       subst_body cl ll i t = mkT tokText (for_name cl (t_val t))) /\
-    (forall t, (t_typ t <> tokText \/ (text_eqb (t_val t) cl = false /\ mem_text (t_val t) ll = false)) ->
-       subst_body cl ll i t = t).
+    (forall t, (t_typ t <> tokText \/ text_eqb (t_val t) cl = false) -> subst_body cl ll i t = t).
 Proof.
   intros n i cl ll body. split; [apply repeat_body_unroll|]. split; [reflexivity|].
-  split; [intros t; apply subst_counter|]. split; [intros t; apply subst_label|intros t; apply subst_other].
+  split; [intros t; apply subst_counter|intros t; apply subst_other].
 Qed.
 Print Assumptions C08_body_count_times_partial.
 
@@ -60,7 +57,7 @@ Theorem C08_block_labels_partial :
      expand_and_evaluate (f_expr f) symbols = Some (EOk v) ->
      exists f1, for_step symbols FFor f = Some (f1, Some FInnerLine) /\
        f_count f1 = v /\ f_count_label f1 = last (f_labels f) [] /\ f_line_labels f1 = init_list (f_labels f) /\
-       f_to_write f1 = Some (map (for_name (last (f_labels f) [])) (init_list (f_labels f))) /\
+       f_to_write f1 = Some (init_list (f_labels f)) /\
        f_content f1 = [] /\ f_out f1 = f_out f /\ f_rd f1 = f_rd f) /\
   (forall symbols f ls,
      t_typ (f_nt f) = tokText -> tok_is_pseudo (f_nt f) = false -> tok_is_op (f_nt f) = true -> f_to_write f = Some ls ->
